@@ -39,9 +39,16 @@ func EvaluateUpdate(q sql.UpdateStatementSearched, rm RelationManager) error {
 	}
 
 	var batch storage.WALBatch
-	for _, row := range rows {
+	for i, row := range rows {
 		walEntries, err := rm.Update(q.TableName, row.RowID, cols, updateSrc)
 		if err != nil {
+			if i > 0 {
+				// a statement that fails must change nothing: give the rows
+				// that were already updated their old values back
+				if undoErr := undoUpdate(rm, q.TableName, rows[:i], fields, batch); undoErr != nil {
+					return fmt.Errorf("%w (and the rows updated before the failing one could not be restored: %s)", err, undoErr.Error())
+				}
+			}
 			return err
 		}
 		batch = append(batch, walEntries...)
@@ -52,4 +59,24 @@ func EvaluateUpdate(q sql.UpdateStatementSearched, rm RelationManager) error {
 	}
 
 	return nil
+}
+
+// undoUpdate writes the values the rows had before the statement back and
+// logs the updates followed by the restoring updates, so that a log replay
+// ends up in the same state as the page cache.
+func undoUpdate(rm RelationManager, tbl string, rows []*storage.Row, fields []*storage.Field, batch storage.WALBatch) error {
+	cols := make([]string, len(fields))
+	for i, field := range fields {
+		cols[i] = fmt.Sprint(field.Column)
+	}
+	// last row first: whatever prefix of the log survives a crash, no later
+	// row of the statement is updated without the earlier ones
+	for i := len(rows) - 1; i >= 0; i-- {
+		walEntries, err := rm.Update(tbl, rows[i].RowID, cols, rows[i].Vals)
+		if err != nil {
+			return err
+		}
+		batch = append(batch, walEntries...)
+	}
+	return rm.FlushWALBatch(batch)
 }
